@@ -349,12 +349,14 @@ package nfa
 //@   loop 1: decreases len(sub.Rune) - i
 
 // ---- the NFA simulation as the fallback of other engines: semantics ASSUMED, named by uninterpreted functions ----
+// frame: `p.*` stands for the PikeVM object together with its private scratch buffers (queues, visited sets, slot
+// tables), which nothing else references (ownership ASSUMED)
 //@ uninterpreted spec func pvFound(p *PikeVM, h []byte) bool
 //@ uninterpreted spec func pvStart(p *PikeVM, h []byte) int
 //@ uninterpreted spec func pvEnd(p *PikeVM, h []byte) int
 //@ trusted func (*PikeVM).Search
 //@   requires p != nil
-//@   modifies family H:nfa.PikeVM, family E:nfa.searchThread, family E:int, family E:uint32, family H:internal/sparse.SparseSet
+//@   modifies p.*
 //@   ensures result2 == pvFound(p, haystack)
 //@   ensures result2 ==> result0 == pvStart(p, haystack) && result1 == pvEnd(p, haystack) && 0 <= result0 && result0 <= result1 && result1 <= len(haystack)
 //@   ensures !result2 ==> result0 == -1 && result1 == -1
@@ -476,10 +478,10 @@ package nfa
 //@ uninterpreted spec func pvSpanEnd(p *PikeVM, h []byte, at int) int
 //@ trusted func (*PikeVM).SearchAt
 //@   requires p != nil
-//@   modifies family H:nfa.PikeVM, family E:nfa.searchThread, family E:int, family E:uint32, family H:internal/sparse.SparseSet
+//@   modifies p.*
 //@   ensures result2 == pvFoundAt(p, haystack, at)
 //@   ensures result2 ==> result0 == pvSpanStart(p, haystack, at) && result1 == pvSpanEnd(p, haystack, at)
 //@ trusted func (*PikeVM).IsMatch
 //@   requires p != nil
-//@   modifies family H:nfa.PikeVM, family E:nfa.searchThread, family E:int, family E:uint32, family H:internal/sparse.SparseSet
+//@   modifies p.*
 //@   ensures result == pvFoundAt(p, haystack, 0)
